@@ -902,6 +902,17 @@ func VH03e_late_reply() {
 	verif.Quiesce()
 	verif.Assert(g2.Done() && e2 == mangos.ErrProtoState, lab+"/recv-without-request-after-a-duplicate-reply")
 	_ = m2
+	// whatever way the first request ended (a timeout included), a later Recv that is abandoned by a newer Send fails
+	// with the cancellation error - not with the error of an earlier call
+	verif.Assert(ep.Send([]byte{'C'}) == nil, lab+"/send-C")
+	verif.Quiesce()
+	var e3 error
+	g3 := verif.Go("recv-C", func() { _, e3 = ep.RecvMsg() })
+	verif.Quiesce()
+	verif.Assert(!g3.Done(), lab+"/recv-C-returned-without-reply")
+	verif.Assert(ep.Send([]byte{'D'}) == nil, lab+"/send-D")
+	verif.Quiesce()
+	verif.Assert(g3.Done() && e3 == mangos.ErrCanceled, lab+"/recv-abandoned-by-a-newer-send-does-not-fail-with-the-cancellation-error")
 	verif.Reach("late-reply-checked")
 	sock.Close()
 }
